@@ -371,6 +371,47 @@ theorem T_layout_agrees :
     (injectorHasDropImpl && decide (injectorDropBody = [Field.guards]) && decide (guardDropOrder = DropOrderSrc.explicitNewestFirst)) = skelDropGuardsOnly := by
   refine ⟨?_, ?_, ?_, ?_, ?_, ?_, ?_, ?_, ?_, ?_, ?_⟩ <;> rfl
 
+/-! ## the same facts in the properties' own words -/
+
+/-- C09: a replacement whose recorded type differs from the target's is refused by a "Signature mismatch"
+    panic and the refusal leaves the whole state as it was (no back-end call, no guard) — sync and async -/
+theorem T_c09_refusal_precedes_everything (mode : Mode) (lib : Lib) (func : Nat) (expected : List Char)
+    (target : Nat × List Char) (os : Os) (h : target.2 ≠ expected) :
+    run (GenIf.WhenCalledBuilder_will_execute_raw mode lib func expected target) os =
+      (Res.panic "Signature mismatch: expected :? but go", os) ∧
+    run (GenIf.WhenCalledBuilderAsync_will_return_async mode lib func expected target) os =
+      (Res.panic "Signature mismatch: expected :? but go", os) := by
+  have hb : (target.2 != expected) = true := by simp [h]
+  constructor
+  · rw [T_if_will_execute_raw, if_pos hb]
+  · rw [T_if_will_return_async, if_pos hb]
+
+/-- C09: identically written types are accepted, with exactly one back-end call for (function, replacement) -/
+theorem T_c09_identical_accepted (mode : Mode) (lib : Lib) (func : Nat) (sig : List Char) (fake : Nat) (os : Os) :
+    run (GenIf.WhenCalledBuilder_will_execute_raw mode lib func sig (fake, sig)) os =
+      (Res.ok (), logs os (installEffects func fake)) := by
+  rw [T_if_will_execute_raw]
+  rw [if_neg (by simp)]
+
+/-- C07: in an accepted `will_execute` of a counting fake, the counter is set to zero before the back end is
+    asked to patch anything; C05 / C06: the expectation is registered before the gate can refuse -/
+theorem T_c07_reset_precedes_install (mode : Mode) (lib : Lib) (func : Nat) (sig : List Char) (fake : Nat)
+    (rest : List Val) (log : List (String × List Val)) :
+    (run (GenIf.WhenCalledBuilder_will_execute mode lib func sig ((fake, sig), ())) { answers := Val.n 1 :: rest, log := log }).2.log =
+      log ++ [("matches CallCountVerifier::WithCount", []), ("counter.store", [Val.n 0, Val.n 0]),
+              ("self.lib.verifiers.push", [Val.n 0])] ++ installEffects func fake := by
+  rw [T_if_will_execute]
+  simp
+
+/-- C10: `will_return_boolean` on a target whose recorded text does not return `bool` (the unchecked entry
+    point's empty text included) is refused before anything is done -/
+theorem T_c10_nonbool_refused (mode : Mode) (lib : Lib) (func : Nat) (expected : List Char) (v : Bool) (os : Os)
+    (hs : strLen expected < 9223372036854775808) (h : returnsBoolText expected = false) :
+    run (GenIf.WhenCalledBuilder_will_return_boolean mode lib func expected v) os =
+      (Res.panic "Signature mismatch: will_return_boolean ", os) := by
+  rw [T_if_will_return_boolean mode lib func expected v os hs, h]
+  rfl
+
 end Inj.Tie
 
 #print axioms Inj.Tie.T_if_will_execute_raw
@@ -390,3 +431,7 @@ end Inj.Tie
 #print axioms Inj.Tie.T_if_unchecked_bool_refused
 #print axioms Inj.Tie.T_if_execute_guard
 #print axioms Inj.Tie.T_layout_agrees
+#print axioms Inj.Tie.T_c09_refusal_precedes_everything
+#print axioms Inj.Tie.T_c09_identical_accepted
+#print axioms Inj.Tie.T_c07_reset_precedes_install
+#print axioms Inj.Tie.T_c10_nonbool_refused
